@@ -43,8 +43,10 @@ IMPORTS = ("From PM.theories Require Import Base Ladder Frontends CorrFrontends.
            "From PM.Generated Require Import GenFrontends.")
 
 STREAM = ["SyncTcp", "AioTcp", "TwTcp"]
-DGRAM = ["SyncUdp", "AioUdp"]
-KINDS = ["r1", "r2", "r3", "r4", "w5", "w6", "w15", "w16", "w22", "w23", "dev", "dev0"]   # dev0: execute() raises -> 04
+DGRAM = ["SyncUdp", "AioUdp", "TwUdp"]     # the Twisted datagram protocol is alive since /repo b36db33
+KINDS = ["r1", "r2", "r3", "r4", "w5", "w6", "w15", "w16", "w22", "w23", "dev", "poison"]
+# poison: FC22 on the last holding register, which holds a float (spec["poison"]): execute() raises TypeError -> 04
+# (device-id read code 0 used to do this; since /repo 9a34217 it is refused with exception 03 without raising)
 
 
 def interleavings(counts, cap, r):
@@ -70,7 +72,8 @@ def make_session(r, framer, dgram):
     multi = r.random() < 0.5
     # hosted sets containing 0 let every unit id through the framer's unit filter, so that requests
     # for a missing unit reach execute() (NoSuchSlave -> exception 0x0B or silence)
-    spec = {"single": not multi, "units": r.choice([[1], [1, 2], [0, 3], [0, 3], [2, 17]]) if multi else [0], "size": 16}
+    spec = {"single": not multi, "units": r.choice([[1], [1, 2], [0, 3], [0, 3], [2, 17]]) if multi else [0], "size": 16,
+            "poison": True}
     cfg = {"broadcast_enable": False, "ignore_missing_slaves": r.random() < 0.4}
     nconn = r.choice([1, 2, 2, 3, 3])
     tid = r.randrange(1, 60000)
@@ -84,7 +87,7 @@ def make_session(r, framer, dgram):
             hosted = spec["units"] if multi else [1, 7]
             uid = r.choice(hosted + hosted + ([9, 9] if multi else []))   # 9: a unit nobody hosts
             kind = r.choice(KINDS)
-            pdu = valid_pdu(r, kind, spec["size"]) if kind != "dev0" else L.pdu_devinfo(0, 0)
+            pdu = valid_pdu(r, kind, spec["size"]) if kind != "poison" else L.pdu_mask(spec["size"] - 1, 0x00FF, 0x1200)
             if r.random() < 0.15:       # illegal data address -> exception response 02
                 pdu = pdu[:1] + b"\x00\x64" + pdu[3:] if pdu[0] != 0x2B else pdu
             tid += 1
@@ -363,7 +366,7 @@ def build(tier):
 def suites(tier):
     cases, _, _ = build(tier)
     return [Suite("stream", IMPORTS, "chk_equiv code [SyncTcp; AioTcp; TwTcp]", cases["stream"], shard=60),
-            Suite("dgram", IMPORTS, "chk_equiv code [SyncUdp; AioUdp]", cases["dgram"], shard=60)]
+            Suite("dgram", IMPORTS, "chk_equiv code [SyncUdp; AioUdp; TwUdp]", cases["dgram"], shard=60)]
 
 
 def extra_checks(tier):
@@ -397,19 +400,32 @@ def replay_finding(f):
             finally:
                 run.close()
         return acts == w["actions"]
-    if f["id"] == "F-C17-twisted-udp-dead":
-        run = L.Run("TwUdp", "socket", SPEC1, {})
-        try:
-            run.open(0)
-            o = run.feed(0, bytes.fromhex(w["datagram"]))
-            return o.escaped is not None and not o.out
-        finally:
-            run.close()
+    if f["id"] == "F-C17-twisted-udp-dead":      # fixed: all three datagram front-ends answer alike
+        outs = []
+        for fe in DGRAM:
+            run = L.Run(fe, "socket", SPEC1, {})
+            try:
+                run.open(0)
+                o = run.feed(0, bytes.fromhex(w["datagram"]))
+                outs.append(None if o.escaped is not None else [x.hex() for x in o.out])
+            finally:
+                run.close()
+        return not (outs[0] == outs[1] == outs[2] == [w["expected"]])
+    if f["id"] == "F-C17-twisted-udp-should-respond":
+        outs = []
+        for fe in DGRAM:
+            run = L.Run(fe, "socket", SPEC1, {})
+            try:
+                run.open(0)
+                outs.append([x.hex() for x in run.feed(0, bytes.fromhex(w["datagram"])).out])
+            finally:
+                run.close()
+        return outs[0] == [] and outs[1] == [] and outs[2] != []
     if f["id"] == "F-C17-udp-shared-framer":
         differ = []
         for first in (w["datagram1"], w.get("short_datagram1", w["datagram1"])):
             outs = []
-            for fe in ("SyncUdp", "AioUdp"):
+            for fe in ("SyncUdp", "AioUdp", "TwUdp"):
                 run = L.Run(fe, "socket", SPEC1, {})
                 try:
                     run.open(0)
@@ -418,7 +434,7 @@ def replay_finding(f):
                     outs.append([x.hex() for x in run.feed(1, bytes.fromhex(w["datagram2"])).out])
                 finally:
                     run.close()
-            differ.append(outs[0] != outs[1])
+            differ.append(outs[0] != outs[1] and outs[0] != outs[2])
         return all(differ)
     if f["id"] == "F-C17-foreign-unit-drops-read":
         still = False
